@@ -51,6 +51,11 @@ fn main() {
         "C20" => c20::run_case,
         _ => { eprintln!("usage: verif_harness <property id>"); std::process::exit(2) }
     };
+    // the applications of some checks are assembled by deeply nested generic code (a debug build spends a lot of stack there): run on a big stack
+    std::thread::Builder::new().stack_size(1 << 30).spawn(move || serve(f)).unwrap().join().ok();
+}
+
+fn serve(f: fn(&Value) -> Value) {
     let stdin = std::io::stdin();
     let stdout = std::io::stdout();
     let mut out = std::io::BufWriter::new(stdout.lock());
